@@ -63,6 +63,35 @@ class HomogeneousPoissonEncoder(GeneratorMixin, RefractoryStepMixin, Module):
             )
 
     @property
+    def dt(self) -> float:
+        r"""Length of the simulation time step, in milliseconds.
+
+        Args:
+            value (float): new simulation time step length.
+
+        Returns:
+            float: present simulation time step length.
+        """
+        return RefractoryStepMixin.dt.fget(self)
+
+    @dt.setter
+    def dt(self, value: float) -> None:
+        previous = RefractoryStepMixin.dt.fget(self)
+        RefractoryStepMixin.dt.fset(self, value)
+        # refrac-frequency compatibility test (the refractory period may follow dt)
+        if self.__compensate_freq:
+            try:
+                _ = argtest.lt(
+                    "frequency * refrac",
+                    self.__frequency_scale * self.refrac,
+                    1000,
+                    float,
+                )
+            except ValueError:
+                RefractoryStepMixin.dt.fset(self, previous)
+                raise
+
+    @property
     def compensated(self) -> bool:
         r"""If the spike frequency compensates for the refractory period.
 
